@@ -250,7 +250,12 @@ def main():
             if t[0] == "TRYREAD" and t[1] == "PROB":
                 nprob += 1
                 w, s = t[5], t[6]
-                if w[2] != "0" or not s.startswith("s0:"):
+                if w[2] == "0" and s.endswith(":9") and not s.startswith("s0:"):
+                    # QSexact_solver ends with an error when a floating-point stage reaches the objective limit (QS_PARAM_OBJULIM /
+                    # OBJLLIM, 1e150 by default): a stop decided by a solver parameter on data beyond that magnitude, the same for
+                    # the same problem built through the API - the problem the reader returned is consistent (it was written and freed)
+                    hist["PROB (solver stopped at its objective limit)"] = hist.get("PROB (solver stopped at its objective limit)", 0) + 1
+                elif w[2] != "0" or not s.startswith("s0:"):
                     # a problem came back that the library then cannot write (MPS) or solve
                     sos = b"SOS" in data or b"S1" in data or b"S2" in data
                     if not (w[2] == "0" and s.startswith("s0:")):
